@@ -8,6 +8,7 @@ CONSTANTS
  PatchCL = FALSE
  Mut = "none"
  RecordHist = FALSE
+ Monitor = FALSE
  FullProduct = FALSE
 VIEW View
 INVARIANTS FaultSurfaces NoSilentTruncation CloseWaits NotExistSurfaces NoPartialInput
